@@ -77,7 +77,8 @@ theorem C16_suspended_silent (s : Sig) (c0 : Cfg) (ops : List Op) (h0 : c0.track
 /-- **The constructor establishes the invariant** (so the hypotheses above are met by every
     freshly constructed Buildable, whatever its signature and arguments). -/
 theorem C16_constructed_inv (s : Sig) (args : List Val) (kwargs : List (String Ã— Val))
-    (ctr : Nat) (c : Cfg) (h : construct s args kwargs ctr true = some c) : TrackedInv c := by
+    (ctr : Nat) (ann : List (String Ã— List Nat)) (c : Cfg)
+    (h : construct s args kwargs ctr true ann = some c) : TrackedInv c := by
   unfold construct at h
   split at h
   Â· cases h
@@ -95,9 +96,15 @@ theorem C16_constructed_inv (s : Sig) (args : List Val) (kwargs : List (String Ã
       Â· rw [log_tracking]
     generalize (({ ctr := ctr, tracking := true } : Cfg).log (.name "__fn_or_cls__") (.val (.v 0))) = c0 at base
     clear hd
-    induction d generalizing c0 with
-    | nil => exact base
-    | cons kv r ih => exact ih _ (TrackedInv_closed.set c0 kv.1 kv.2 base)
+    have h1 : TrackedInv (d.foldl (fun c kv => c.setValue kv.1 kv.2) c0) := by
+      induction d generalizing c0 with
+      | nil => exact base
+      | cons kv r ih => exact ih _ (TrackedInv_closed.set c0 kv.1 kv.2 base)
+    generalize d.foldl (fun c kv => c.setValue kv.1 kv.2) c0 = c1 at h1
+    unfold annotate
+    induction ann generalizing c1 with
+    | nil => exact h1
+    | cons nt r ih => exact ih _ (TrackedInv_closed.set c1 _ _ h1)
 
 /-- **History never influences building**: what `build` passes to the callable is a function
     of the state with history, counter and tracking switch erased. -/
